@@ -104,20 +104,15 @@ theorem processFrame_ok (P : Nat → Prop) (cfg : CheckCfg) (s : CdpSt) (w : Byt
       · intro g hg; simp at hg
     · split at h
       · cases h
-      · split at h
-        · cases h
-        · split at h
-          · cases h
-          · simp only [Except.ok.injEq, Prod.mk.injEq] at h
-            obtain ⟨rfl, rfl⟩ := h
-            refine ⟨?_, ?_, rfl⟩
-            · apply ok_append
-              · apply ok_append
-                · exact ok_ite' P _ w _ _ (ok_frame P _ _ _ _ _ w hpf)
-                · intro x hx; simp only [List.mem_singleton] at hx; subst hx; trivial
-              · exact ok_ite' P _ w _ _ (ok_frame P _ _ _ _ _ w hpf)
-            · intro g hg; simp at hg
-
+      · simp only [Except.ok.injEq, Prod.mk.injEq] at h
+        obtain ⟨rfl, rfl⟩ := h
+        refine ⟨?_, ?_, rfl⟩
+        · apply ok_append
+          · apply ok_append
+            · exact ok_ite' P _ w _ _ (ok_frame P _ _ _ _ _ w hpf)
+            · intro x hx; simp only [List.mem_singleton] at hx; subst hx; trivial
+          · exact ok_ite' P _ w _ _ (ok_frame P _ _ _ _ _ w hpf)
+        · intro g hg; simp at hg
 
 theorem preTdt_ok (P : Nat → Prop) (cfg : CheckCfg) (s : CdpSt) (w : Bytes) (hp : P s.wordPos) (hf : FrameInv P s)
     (s' : CdpSt) (ms : List Msg) (h : preTdt cfg s w = .ok (s', ms)) :
@@ -354,11 +349,7 @@ theorem checkWord_ok (P : Nat → Prop) (cfg : CheckCfg) (s : CdpSt) (w : Bytes)
             · simp only [Except.ok.injEq, Prod.mk.injEq] at hpf; obtain ⟨rfl, _⟩ := hpf; exact ⟨rfl, rfl, rfl⟩
             · split at hpf
               · cases hpf
-              · split at hpf
-                · cases hpf
-                · split at hpf
-                  · cases hpf
-                  · simp only [Except.ok.injEq, Prod.mk.injEq] at hpf; obtain ⟨rfl, _⟩ := hpf; exact ⟨rfl, rfl, rfl⟩
+              · simp only [Except.ok.injEq, Prod.mk.injEq] at hpf; obtain ⟨rfl, _⟩ := hpf; exact ⟨rfl, rfl, rfl⟩
       · simp only [Except.ok.injEq, Prod.mk.injEq] at h; obtain ⟨rfl, _⟩ := h; exact ⟨rfl, rfl, rfl⟩
     rw [hk.1, hk.2.1, hk.2.2]; exact hpp
   · -- cdw
@@ -479,12 +470,14 @@ theorem payloadChecks_ok (P : Nat → Prop) (cfg : CheckCfg) (s : CdpSt) (off : 
     (∀ x ∈ ms, (x = mkErrNoWord off "PAYLOAD" ∧ cutPayload payload = none) ∨
        ∃ ws, cutPayload payload = some ws ∧ AtWords P (off + 64) (slotOf r) ws x) ∧ FrameInv P s' := by
   unfold payloadChecks at h
-  simp only at h
-  split at h
-  · cases h
-  · rename_i s0 hs0
+  cases hs0 : setCurrentRdh cfg s off r with
+  | error e => simp [hs0] at h
+  | ok s0 =>
+    simp only [hs0] at h
     -- s0 differs from the re-initialised tracker state at most in `barrel`
     have hs0' : s0.payloadPos = off + 64 ∧ s0.wordCount = 0 ∧ s0.slot = slotOf r ∧ FrameInv P s0 := by
+      unfold setCurrentRdh at hs0
+      simp only at hs0
       split at hs0
       · split at hs0
         · cases hs0
